@@ -192,16 +192,45 @@ pub fn run(ctx: &Ctx) -> CheckOutput {
 			t.sample(5, || json!({"argv": argv, "stdout": format!("{out:?}"), "exit": o.exit.to_string(), "stdout_bytes": o.stdout.len()}));
 		}
 	});
-	let tally = Tally::merge_all(tallies);
+	let mut tally = Tally::merge_all(tallies);
+	// standard output is a pipe in O_NONBLOCK mode that cannot take a single byte (a stalled consumer behind
+	// ssh / a Node.js parent): nothing can be written, so the run must not end with status 0 unless there
+	// was nothing to write; a failure must be reported as such
+	for to in F::ALL {
+		for list in [vec!["s12.json"], vec!["s12.json", "small.yaml"], vec!["s8k+1.json"], vec!["s12.json", "missing.json"], vec!["s70k.json", "s12.json"], vec!["empty-doc.json", "syntax0.json"]] {
+			if to == F::Toml && list.len() > 1 && list[1] != "missing.json" && list[1] != "syntax0.json" {
+				continue;
+			}
+			let mut argv: Vec<String> = vec![format!("-t{}", to.letter())];
+			argv.extend(list.iter().map(|s| s.to_string()));
+			let a: Vec<&str> = argv.iter().map(String::as_str).collect();
+			let mut sp = Spawn::new(&dir, &a);
+			sp.stdout = Stdout::NonBlockFull;
+			let o = proc::run(&sp);
+			tally.evaluations += 1;
+			tally.count("stdout:NonBlockFull");
+			let inputs: Vec<String> = list.iter().map(|s| s.to_string()).collect();
+			let lib = library_run(&dir, &inputs, None, to, b"");
+			let good = match &o.exit {
+				Exit::Code(0) => lib.failed_at.is_none() && o.stdout == lib.bytes,
+				Exit::Code(1) => o.stderr.starts_with(b"xt error"),
+				_ => false,
+			};
+			if !good {
+				tally.bad("output-lost-on-a-stalled-nonblocking-pipe", json!({"kind": "cli-list", "argv": argv, "stdout": "NonBlockFull"}),
+					format!("xt {argv:?} with stdout a full non-blocking pipe: {} but the library produces {} bytes (failing input: {:?})", o.brief(), lib.bytes.len(), lib.failed_at));
+			}
+		}
+	}
 	let req = |k: &str| (k.to_string(), *tally.counters.get(k).unwrap_or(&0));
-	let mut required = vec![req("stdout:Pipe"), req("stdout:File"), req("inputs:1"), req("inputs:2"), req("inputs:3")];
+	let mut required = vec![req("stdout:NonBlockFull"), req("stdout:Pipe"), req("stdout:File"), req("inputs:1"), req("inputs:2"), req("inputs:3")];
 	for b in &bad {
 		required.push(req(&format!("failure-kind:{}", b.name)));
 	}
 	CheckOutput {
 		level: "fault_enumeration",
 		tally,
-		rule: format!("inputs by output size class {{12 B, 8 KiB-1, 8 KiB, 8 KiB+1, 70 KiB{}}} plus small YAML/MessagePack/TOML files and documents whose output holds a line-feed byte followed by 1-5 KB without one; failure kinds {{missing file, syntax error at byte 0, syntax error after a complete 9 KB document, syntax error 20 levels deep, undetectable format, value the target refuses (null key, binary, null), second document (refused by TOML), directory, second use of '-'}}; all lists with 0-2 good inputs before the failing one and 0-1 after{}, all 4 targets, stdout a pipe and a regular file, through the real binary; oracle: the exit status is 1 exactly when the library fails on some input, stdout then STARTS WITH the concatenation of the library translations of all inputs before it (and is a prefix of everything the library produced); for all-good lists exit 0 and stdout equals the full concatenation.", ", 1.2 MB", if thorough { " and lists of 6 inputs over the reduced size alphabet with the failing input at every position" } else { "" }),
+		rule: format!("inputs by output size class {{12 B, 8 KiB-1, 8 KiB, 8 KiB+1, 70 KiB{}}} plus small YAML/MessagePack/TOML files and documents whose output holds a line-feed byte followed by 1-5 KB without one; failure kinds {{missing file, syntax error at byte 0, syntax error after a complete 9 KB document, syntax error 20 levels deep, undetectable format, value the target refuses (null key, binary, null), second document (refused by TOML), directory, second use of '-'}}; all lists with 0-2 good inputs before the failing one and 0-1 after{}, all 4 targets, stdout a pipe and a regular file, through the real binary; oracle: the exit status is 1 exactly when the library fails on some input, stdout then STARTS WITH the concatenation of the library translations of all inputs before it (and is a prefix of everything the library produced); for all-good lists exit 0 and stdout equals the full concatenation. Plus stdout as a full pipe in O_NONBLOCK mode (every write fails with EAGAIN): exit 0 only with every byte written, otherwise exit 1 with an 'xt error' message.", ", 1.2 MB", if thorough { " and lists of 6 inputs over the reduced size alphabet with the failing input at every position" } else { "" }),
 		exhaustive: true,
 		bounds: json!({"max_inputs": if thorough { 6 } else { 3 }}),
 		assumptions: vec!["the library run in-process (one Translator, same order) defines the expected bytes".into()],
@@ -215,6 +244,21 @@ pub fn replay(case: &Value) -> Option<String> {
 	let w = WorkDir::new("c15-replay");
 	build_fixtures(&w, true);
 	let argv: Vec<String> = case["argv"].as_array().unwrap().iter().map(|x| x.as_str().unwrap().to_string()).collect();
+	if case["stdout"] == "NonBlockFull" {
+		let argv: Vec<String> = case["argv"].as_array().unwrap().iter().map(|x| x.as_str().unwrap().to_string()).collect();
+		let a: Vec<&str> = argv.iter().map(String::as_str).collect();
+		let mut sp = Spawn::new(w.path(), &a);
+		sp.stdout = Stdout::NonBlockFull;
+		let o = proc::run(&sp);
+		let to = F::parse(&argv[0][2..]).unwrap();
+		let lib = library_run(w.path(), &argv[1..].to_vec(), None, to, b"");
+		let good = match &o.exit {
+			Exit::Code(0) => lib.failed_at.is_none() && o.stdout == lib.bytes,
+			Exit::Code(1) => o.stderr.starts_with(b"xt error"),
+			_ => false,
+		};
+		return (!good).then(|| o.brief());
+	}
 	let out = if case["stdout"] == "File" { Stdout::File } else { Stdout::Pipe };
 	let to = F::parse(&argv[0][2..]).unwrap();
 	let stdin: &[u8] = b"{\"from\":\"stdin\"}\n";
